@@ -34,13 +34,13 @@ Feat(fr) == CASE fr.k = "char" -> fr.v[1][1]
 RECURSIVE FeatRec(_, _)
 FeatRec(val, i) == IF i >= Len(val) THEN (("f_" \o val[i].f) :> Feat(val[i]))
                    ELSE (("f_" \o val[i].f) :> Feat(val[i])) @@ FeatRec(val, i + 1)
-RtFeats(scn) == IF scn.ty = "Map"
+RtFeats(scn) == IF scn.ty \in {"Map", "OMap"}
                   THEN [f_keys |-> IF \E i \in 1..Len(scn.val) : scn.val[i].key = <<>> THEN "emptykey" ELSE "key"]
                   ELSE FeatRec(scn.val, 1)
 
 \* ------------------------------------------------------------------ rt
 RtBinding(scn, obs) ==
-  \/ scn.ty = "Map"
+  \/ scn.ty \in {"Map", "OMap"}
   \/ /\ Len(obs.vin) = Len(scn.val)
      /\ \A i \in 1..Len(scn.val) :
           /\ obs.vin[i].n = NameCp[scn.val[i].f]
